@@ -226,7 +226,7 @@ func main() {
 		outPath = os.Args[2]
 	}
 	var out strings.Builder
-	out.WriteString("(* GENERATED by tools/constgen from " + repo + " -- do not edit.  Regenerated on every run. *)\n")
+	out.WriteString("(* GENERATED by tools/constgen from the repository source -- do not edit.  Regenerated on every run. *)\n")
 	out.WriteString("From Coq Require Import ZArith List.\nImport ListNotations.\nOpen Scope Z_scope.\n\n(* all names live in module K: refer to them as K.opQuery, K.timeBase, ... *)\nModule K.\n\n")
 
 	main, err := load(repo)
